@@ -49,13 +49,9 @@ Definition bw_listed (bw : Z) : bool :=
   (bw =? 125) || (bw =? 250) || (bw =? 500) || (bw =? 812) || (bw =? 1625).
 Definition bw_exact (bw : Z) : bool := (bw =? 125) || (bw =? 250) || (bw =? 500).
 
-(* observed airtime v against the formula: exact for 125/250/500 kHz, otherwise
-   within the truncation of the integer symbol duration (less than one ns per symbol, plus one) *)
+(* observed airtime v against the formula: its value truncated to whole nanoseconds *)
 Definition airtime_prop (pl sf bw pre cr : Z) (header ldro : bool) (v : Z) : bool :=
-  let s := spec_airtime pl sf bw pre cr header ldro in
-  if bw_exact bw then Qeq_bool (inject_Z v) s
-  else Qle_bool (inject_Z v) s &&
-       negb (Qle_bool (inject_Z v) (s - (spec_total_symbols pl sf pre cr header ldro + 1))).
+  v =? Qfloor (spec_airtime pl sf bw pre cr header ldro).
 
 (* first index (from i) where f fails on the list, as code contribution *)
 Fixpoint first_bad {A} (f : Z -> A -> bool) (i : Z) (l : list A) : option Z :=
@@ -131,8 +127,10 @@ Definition check (c : case) : N :=
     row_code (omin (if ozeqb (symbol_duration sf bw) (Ok o_sd) && (preamble_duration o_sd pre =? o_pre)
                     then None else Some 0)
                    (first_bad (fun pl o => ozeqb (airtime pl sf bw pre cr header ldro) (Ok o)) 0 os))
-             (omin (first_bad (fun pl o => airtime_prop pl sf bw pre cr header ldro o) 0 os)
-                   (first_drop 0 os))
+             (omin (* the symbol-duration helper is the formula's symbol time truncated to ns *)
+                   (if o_sd =? Qfloor (spec_tsym sf bw) then None else Some 0)
+                   (omin (first_bad (fun pl o => airtime_prop pl sf bw pre cr header ldro o) 0 os)
+                         (first_drop 0 os)))
   | CAir pl sf bw pre cr header ldro o_sd o =>
     code (ozeqb (symbol_duration sf bw) o_sd &&
           (negb (symbols_modelled pl sf ldro) || ozeqb (airtime pl sf bw pre cr header ldro) o))
